@@ -44,6 +44,24 @@ def install(reg):
         bm.str_strip(e, st, s.v, "rstrip", chars.tag[1])
         return SV(INT, LN(s.v))
 
+    @reg.spec("py_first")
+    def _py_first(e, st, s, chars):
+        FN, LN = bm.strip_fns(chars.tag[1])
+        bm.str_strip(e, st, s.v, "strip", chars.tag[1])
+        return SV(INT, FN(s.v))
+
+    @reg.spec("py_first_ws")
+    def _py_first_ws(e, st, s):
+        FN, LN = bm.strip_fns(None)
+        bm.str_strip(e, st, s.v, "strip", None)
+        return SV(INT, FN(s.v))
+
+    @reg.spec("py_last_ws")
+    def _py_last_ws(e, st, s):
+        FN, LN = bm.strip_fns(None)
+        bm.str_strip(e, st, s.v, "strip", None)
+        return SV(INT, LN(s.v))
+
     @reg.spec("truthy")
     def _truthy(e, st, v):
         return SV(BOOL, e.truthy(st, v))
